@@ -511,5 +511,6 @@ class CheckC10(core.Check):
             if "o.panic" in e.kv:
                 r.viol("C10|getter|%s" % core.norm_msg(e.kv["o.panic"])[:80], "a state getter panicked after %s in case %s" % (e.op, case.id))
             r.keys.add((e.op, cls, variant, outcome))
+            r.sets.setdefault("op_outcome_pairs", set()).add((e.op, outcome))
             r.nontrivial = True
         return r
